@@ -20,7 +20,9 @@ from harness.common import SEED, Check, MachineryError, cap, quiet_pydrex, run_t
 PAR = dict(n=3.5, p=1.5, lam=5.0, M=125.0, phi=0.7)
 # parameter points for the rate-level relations (incl. whole-number exponents, even and odd)
 PARS = [PAR, dict(n=2.0, p=1.0, lam=5.0, M=125.0, phi=1.0), dict(n=4.0, p=2.0, lam=0.0, M=50.0, phi=0.3),
-        dict(n=5.0, p=1.5, lam=10.0, M=200.0, phi=0.7), dict(n=3.0, p=1.0, lam=5.0, M=10.0, phi=1.0)]
+        dict(n=5.0, p=1.5, lam=10.0, M=200.0, phi=0.7), dict(n=3.0, p=1.0, lam=5.0, M=10.0, phi=1.0),
+        # equal exponents (the one coincidence of the two documented ranges is p = n = 2; the relations hold for every value)
+        dict(n=2.0, p=2.0, lam=5.0, M=125.0, phi=0.7), dict(n=3.5, p=3.5, lam=5.0, M=125.0, phi=1.0), dict(n=1.5, p=1.5, lam=2.0, M=60.0, phi=0.5)]
 
 
 def rate_level(chk, core, rng, count):
